@@ -253,6 +253,31 @@ def end_to_end(chk, tier):
         chk.seen(('today', tz))
         if not line.startswith('OK'):
             chk.violation({'why': 'TODAY() is not the local date of the process', 'TZ': tz, 'impl': line[:300], 'stream': 'today-timezone'})
+    # the clock moves while an executor lives: TODAY is the local date of the moment it is ASKED (the same executor, the same instance,
+    # no override in between; the local date is moved by 26 hours through the time zone of the process)
+    src2 = ("import sys, os, time, datetime as dt, warnings; warnings.filterwarnings('ignore'); sys.path.insert(0, %r); sys.path.insert(0, %r)\n"
+            "from harness import realcode, core\n"
+            "m = realcode.mods(); Cell = m['Cell']\n"
+            "cls = realcode.load_class(realcode.translate([('S', [['=TODAY()', '=DATEDIF(DATE(2020,1,1),TODAY(),\"D\")', '=DAY(TODAY())']])]))\n"
+            "ex = realcode.executor_for(cls)\n"
+            "def ask():\n"
+            "    b = dt.date.today(); g = [core.outcome(lambda c=c: ex.get_cell(Cell(0, c, 0)).value) for c in range(3)]; a = dt.date.today()\n"
+            "    return g, [[core.enc(dt.datetime.combine(d, dt.time())), 'I%%d' %% (d - dt.date(2020, 1, 1)).days, 'I%%d' %% d.day] for d in (b, a)]\n"
+            "bad = []\n"
+            "for tz in ('Etc/GMT+12', 'Etc/GMT-14', 'Etc/GMT+12', 'UTC'):\n"
+            "    os.environ['TZ'] = tz; time.tzset()\n"
+            "    g, want = ask()\n"
+            "    if g not in want: bad.append((tz, g, want[0]))\n"
+            "    g, want = ask()\n"
+            "    if g not in want: bad.append((tz + ' again', g, want[0]))\n"
+            "print('OK' if not bad else 'BAD %%s' %% bad)\n") % (core.REPO, core.VERIF)
+    r = subprocess.run(['/venv/bin/python', '-c', src2], env=dict(os.environ, TZ='UTC', E2P_REPO=core.REPO), capture_output=True, text=True, timeout=300)
+    line = (r.stdout.strip().splitlines() or ['NO-OUTPUT ' + r.stderr[-300:]])[-1]
+    chk.count('today:clock-moves')
+    chk.seen(('today', 'clock-moves'))
+    if not line.startswith('OK'):
+        chk.violation({'why': 'TODAY() asked again on the same executor after the local date changed is not the local date of that moment', 'impl': line[:400],
+                       'stream': 'today-clock-moves'})
     # TODAY end-to-end
     before = dt.date.today()
     g = realcode.eval_formulas(['=TODAY()'], {})[0]
